@@ -509,6 +509,10 @@ def gen_piece(rng, ntracks, values, pitch_range, nbars=None, tier="quick", grids
     # is where anything remembered about a rest in one signature meets the other one
     p_empty = rng.choice([0.25, 0.25, 0.25, 0.6, 0.85])
     p_extras = rng.choice([0, 0, 0, 0.3, 0.8])
+    # "downbeat bars": every note of the bar starts on the bar line, only some tracks play, and where the bar is as long as a
+    # note value one note fills it exactly - no rest is ever emitted inside such a bar, so whether it is closed at all rests on
+    # the tokeniser's own book-keeping (the shape behind fix 8ea1829)
+    p_downbeat = rng.choice([0, 0, 0.15, 0.4])
     onset_palette = [(rng.random() < 0.5, grid * rng.randrange(0, 9)) for _ in range(rng.choice([1, 2, 2]))] \
         if rng.random() < 0.4 else None
     # "sparse on the beat": a longer piece of two signatures, about every second bar empty, one or two notes per sounding bar,
@@ -538,6 +542,26 @@ def gen_piece(rng, ntracks, values, pitch_range, nbars=None, tier="quick", grids
             sig = rng.choice([x for x in palette if x != sig] or palette)
         L = bar_len(*sig)
         tracks = []
+        if p_downbeat and rng.random() < p_downbeat:
+            # often a short bar of another signature thrown in (4/4 | 3/8 | 4/4), as long as one note value
+            short = [sg for sg in palette + [x for x in sigs_ok if bar_len(*x) in values][:3] if bar_len(*sg) in values]
+            if short and rng.random() < 0.5:
+                sig = rng.choice(short)
+                L = bar_len(*sig)
+            playing = [tr for tr in range(ntracks) if k < track_len[tr] and rng.random() < 0.5] or \
+                      [rng.choice([tr for tr in range(ntracks) if k < track_len[tr]] or [0])]
+            fill = [v for v in values if v == L]
+            for tr in range(ntracks):
+                notes = []
+                if tr in playing:
+                    for p in rng.sample(pitches[tr], rng.randrange(1, len(pitches[tr]) + 1)):
+                        fits = [v for v in values if v <= L]
+                        if fits:
+                            notes.append([p, 0, fill[0] if fill and rng.random() < 0.6 else rng.choice(fits), rng.choice(vel_palette)])
+                    notes.sort(key=lambda x: (x[1], x[0]))
+                tracks.append(notes)
+            bars.append({"sig": [sig[0], sig[1]], "tracks": tracks, "mode": rng.choice(["abs", "rel", "both"])})
+            continue
         for tr in range(ntracks):
             notes = []
             if k < track_len[tr] and rng.random() > p_empty:
@@ -574,13 +598,18 @@ def gen_piece(rng, ntracks, values, pitch_range, nbars=None, tier="quick", grids
 
 def gen_cuts(rng, piece):
     nb = len(piece["bars"])
-    shape = rng.choice(["uniform", "uniform", "uniform", "singletons", "singletons", "one", "at_changes", "around_empty"])
+    shape = rng.choice(["uniform", "uniform", "uniform", "singletons", "singletons", "one", "at_changes", "around_empty",
+                        "after_changes"])
     if nb <= 1 or shape == "one":
         return []
     if shape == "singletons":
         return list(range(1, nb))
     if shape == "at_changes":
         return [k for k in range(1, nb) if piece["bars"][k]["sig"] != piece["bars"][k - 1]["sig"]]
+    if shape == "after_changes":
+        # the bar that brings a new signature is the LAST bar of its group (the change sits at an inner bar line of the call)
+        cuts = {k + 1 for k in range(1, nb - 1) if piece["bars"][k]["sig"] != piece["bars"][k - 1]["sig"]}
+        return sorted(cuts | {k for k in range(1, nb) if rng.random() < 0.2})
     if shape == "around_empty":
         cuts = set()
         for k, b in enumerate(piece["bars"]):
